@@ -156,6 +156,9 @@ func (t *tcpTransport) Receive(ctx context.Context) (envelope, error) {
 	if err := t.decoder.Decode(&raw); err != nil {
 		if errors.Is(err, io.EOF) {
 			t.eof = true
+			// The peer closed its end and the transport is unusable from now on
+			// (Connected is false, so Close is never reached): release the socket.
+			_ = t.ctxConn.Close()
 		}
 		return nil, fmt.Errorf("tcp transport: receive: %w", err)
 	}
